@@ -385,7 +385,7 @@ func sortCompare(thisObject *object, index0, index1 uint, compare *object) int {
 
 		if j.value == k.value {
 			return 0
-		} else if j.value < k.value {
+		} else if lessThanUTF16(j.value, k.value) {
 			return -1
 		}
 
